@@ -8,7 +8,7 @@ import lib
 from lib import cZ, cN, cQ, cbool, clist
 
 REQ = ("From Coq Require Import ZArith QArith List.\nImport ListNotations.\n"
-       "From PV Require Import Gen.DomainConst Gen.CloneConst Clone.Pairs Clone.PairsRun.")
+       "From PV Require Import Gen.DomainConst Gen.CloneConst Clone.Pairs Clone.PairsRun Clone.PairsPre.")
 
 # ------------------------------------------------------------------------------------------
 # fragment library: statement trees -> Python source
@@ -151,9 +151,13 @@ def render(frag, name, rng=None, noise_p=0.0, renamed=False, shift=0, ind=0):
         if ind > 0:
             params = "self, " + params
         out.append("%sdef %s(%s):" % (pad, name, params))
+        if frag.get("doc"):
+            out.append('%s    """%s"""' % (pad, frag["doc"]))
         render_block(frag["body"], ind + 1, names, shift, noise, out)
     else:
         out.append("%sclass %s:" % (pad, name))
+        if frag.get("doc"):
+            out.append('%s    """%s"""' % (pad, frag["doc"]))
         for k, m in enumerate(frag["methods"]):
             out += render(m, ("werk%d" if renamed else "method%d") % k, rng, noise_p, renamed, shift, ind + 1)
             out.append("")
@@ -164,30 +168,71 @@ def render(frag, name, rng=None, noise_p=0.0, renamed=False, shift=0, ind=0):
 
 PLACES = ["same_file", "other_file", "other_dir"]
 
+# Where a copy may stand: at the top level or nested in a compound statement.  Fragment extraction
+# (extractFragmentsRecursive) walks Children, Body and Orelse only.
+WRAPS = {
+    "except": ["try:", "    import fastpath", "except ImportError:"],
+    "finally": ["try:", "    import fastpath", "finally:"],
+    "tryelse": ["try:", "    import fastpath", "except ImportError:", "    pass", "else:"],
+    "trybody": None,   # try: <copy> / except ImportError: pass
+    "with": ["with guard():"],
+    "ifelse": ["if os.name == 'nt':", "    pass", "else:"],
+}
+HANDLER_WRAPS = ("except", "finally")
 
-def gen_project(rng, n_bases=3, heavy_noise_p=0.25, max_items=9, twins_p=0.5):
-    """A project: dict path -> text, plus the list of intended verbatim groups (by item name)."""
+
+def wrap_lines(lines, wrap):
+    """(header lines, indented lines, trailer lines) of a fragment nested in the compound statement `wrap`."""
+    body = [("    " + l if l.strip() else l) for l in lines]
+    if wrap == "trybody":
+        return ["try:"], body, ["except ImportError:", "    pass"]
+    return list(WRAPS[wrap]), body, []
+
+
+def side_rng(rng):
+    """A second generator derived from the state of `rng` WITHOUT drawing from it: additions to a generator use it so that the
+    inputs an unchanged part produces for a given VERIF_SEED stay what they were."""
+    import random
+    import zlib
+    return random.Random(zlib.crc32(repr(rng.getstate()[1]).encode()))
+
+
+def gen_project(rng, n_bases=3, heavy_noise_p=0.25, max_items=9, twins_p=0.5, wrap_p=0.0, force_wrap=None, doc_p=0.0, docedit_p=0.0):
+    """A project: dict path -> text, plus the list of intended verbatim groups (by item name).
+    Extras (drawn from side_rng, appended after everything else): doc_p = probability that a base fragment carries a docstring
+    (its copies keep it), docedit_p = probability of one more copy of such a function that differs in the docstring text only;
+    wrap_p = probability of a small extra function with a verbatim copy nested in a compound statement (WRAPS); force_wrap = that,
+    in the given placement, for sure."""
+    side = side_rng(rng)
     g = FragGen(rng)
     files = {"main.py": [], "util.py": [], "pkg/core.py": [], "pkg/sub/deep.py": []}
     order = list(files)
     items = []   # (name, path, relation, base)
     counter = [0]
 
-    def place(frag, path, relation, base, **kw):
+    def place(frag, path, relation, base, wrap=None, noise_rng=None, **kw):
         counter[0] += 1
         name = ("Klasse%d" if frag["kind"] == "class" else "func%d") % counter[0]
-        if relation == "verbatim":      # a verbatim copy keeps the name
+        if relation in ("verbatim", "docedit"):      # a verbatim copy keeps the name
             name = [it["name"] for it in items if it["base"] == base and it["relation"] == "base"][0]
-        lines = render(frag, name, rng, **kw)
-        start = len(files[path]) + 3   # two header lines, 1-based
-        files[path] += lines + ["", ""]
-        items.append({"name": name, "path": path, "relation": relation, "base": base, "kind": frag["kind"], "start": start})
+        lines = render(frag, name, noise_rng or rng, **kw)
+        head, tail = [], []
+        if wrap:
+            head, lines, tail = wrap_lines(lines, wrap)
+        start = len(files[path]) + 3 + len(head)   # two header lines, 1-based
+        files[path] += head + lines + tail + ["", ""]
+        items.append({"name": name, "path": path, "relation": relation, "base": base, "kind": frag["kind"], "start": start, "wrap": wrap,
+                      "doc": frag.get("doc")})
 
+    base_frags = {}
     for b in range(n_bases):
         if len(items) >= max_items:
             break
         frag = g.klass() if rng.random() < 0.25 else g.function(rng.choice([2, 3, 4]), rng.choice([4, 6, 8]))
         home = rng.choice(order)
+        base_frags[b] = frag
+        if doc_p and side.random() < doc_p:
+            frag["doc"] = "Handle case %d of the batch." % b
         place(frag, home, "base", b)
         for _ in range(rng.randint(1, 2)):
             where = rng.choice(PLACES)
@@ -214,6 +259,22 @@ def gen_project(rng, n_bases=3, heavy_noise_p=0.25, max_items=9, twins_p=0.5):
             items.append({"name": name, "path": path, "relation": "twin", "base": -2, "kind": "def", "start": len(files[path]) + 3,
                           "twin_kinds": list(kinds), "variant": v})
             files[path] += lines + ["", ""]
+    # ---- extras (side generator only)
+    gs = FragGen(side)
+    if force_wrap or (wrap_p and side.random() < wrap_p):
+        # a small function (two fragments: the def and its loop) and a verbatim copy of it nested in a compound statement
+        wrap = force_wrap or side.choice(sorted(WRAPS))
+        v = lambda: side.randrange(len(VARS))
+        body = [("assign", v(), gs.expr()), ("assign", v(), gs.expr()), ("for", v(), gs.expr(1), [("assign", v(), gs.expr()), ("callst", "log", gs.expr()), ("assign", v(), gs.expr())]),
+                ("assign", v(), gs.expr()), ("callst", "emit", gs.expr()), ("assign", v(), gs.expr()), ("ret", gs.expr())]
+        wf = {"kind": "def", "params": 2, "body": body}
+        b = max(list(base_frags) + [0]) + 1
+        home = side.choice(order)
+        place(wf, home, "base", b, noise_rng=side)
+        place(wf, side.choice([p for p in order if p != home]), "verbatim", b, wrap=wrap, noise_rng=side, noise_p=side.choice([0.0, 0.15, 0.3]))
+    for b, frag in sorted(base_frags.items()):
+        if frag.get("doc") and frag["kind"] == "def" and side.random() < docedit_p:
+            place(dict(frag, doc="Process entry %d; see the manual." % b), side.choice(order), "docedit", b, noise_rng=side)
     texts = {p: "\n".join(["import os", ""] + ls) + "\n" for p, ls in files.items() if ls}
     return texts, items
 
@@ -296,9 +357,21 @@ def coq_frag(i, f, files, trees, feats=None, lshfeats=None):
 TYPES = {1: "Type1", 2: "Type2", 3: "Type3", 4: "Type4"}
 
 
+def lsh_threshold_for_model(thr, hashes):
+    """EstimateJaccardSimilarity returns float64(matches) / float64(n) and the detector compares that float64 with the float64
+    threshold; the model compares exact rationals.  The two agree for every match count iff the model's threshold is m0/n where m0 is
+    the least match count whose float64 quotient reaches the (clamped) threshold -- e.g. threshold 0.8 and n = 100: float64(80)/float64(100)
+    IS the float64 0.8 (not below it), although 4/5 is below the exact value of that float64."""
+    n = hashes if hashes > 0 else 128
+    t = min(1.0, max(0.0, float(thr)))
+    m0 = next(m for m in range(n + 1) if float(m) / float(n) >= t)
+    return Fraction(m0, n)
+
+
 def coq_cfg(c):
-    """c: dict with the model's cfg fields (floats are converted exactly)."""
-    q = lambda x: cQ(f2q(x))
+    """c: dict with the model's cfg fields (floats are converted exactly; the LSH threshold via lsh_threshold_for_model)."""
+    q = lambda x: cQ(x if isinstance(x, Fraction) else f2q(x))
+    c = dict(c, lsh_thr=lsh_threshold_for_model(c["lsh_thr"], c["lsh_hashes"]))
     return "(Build_cfg %s %s %s %s %s %s %s %s %s %s %s %s %s %s %s %s %s %s %s %s %s %s)" % (
         cZ(c["min_lines"]), cZ(c["min_nodes"]), q(c["t1"]), q(c["t2"]), q(c["t3"]), q(c["t4"]), q(c["sim_thr"]),
         q(c["max_dist"]), cZ(c["max_pairs"]), cZ(c["batch_threshold"]), cZ(c["batch_large"]), cZ(c["batch_small"]),
@@ -502,6 +575,109 @@ def twin_function(kinds, occ, n_fill, v, name="export_records"):
     body += FILLER[max(2, n_fill // 2):n_fill]
     body.append("return total - failed")
     return lines + ["    " + l for l in body]
+
+
+# ------------------------------------------------------------------------------------------
+# "size ratio" family: functions built around try / except / finally with IDENTICAL handler and
+# finally blocks and a try body of k statements.  CodeFragment.Size (calculateASTSize) counts only
+# the nodes reachable through Children/Body/Orelse, i.e. NOT the handler and finally bodies, while the
+# APTED tree (ConvertAST) contains them.  Two members therefore have Size k+3 / k'+3 (their inner
+# `try` statements k+1 / k'+1) although most of their trees is shared: Size ratios between 1.5 and 2
+# with similarities of 0.74 .. 0.9, i.e. pairs that sit on both sides of the size pre-filter of
+# shouldCompareFragments (4*|s1-s2| > s1+s2, ratio 5/3) and are still clones at the default thresholds.
+# Comment padding changes only the line count (line-count pre-filter: longer > 2 * shorter).
+# ------------------------------------------------------------------------------------------
+TRY_STMTS = ['handle = source.open(path)', 'header = handle.readline()', 'fields = header.split(",")', 'rows = []',
+             'width = len(fields)', 'log.debug(width)', 'total = len(rows)', 'log.debug(total)', 'check_width(rows, width)',
+             'record_stats(path, total)', 'rows.append(fields)', 'handle.seek(0)', 'stamp = clock.now()', 'audit.begin(path, stamp)',
+             'count = 0', 'count += 1', 'audit.record(path, count)', 'sink.flush()']
+
+
+def try_function(name, k, pad=0):
+    """def with a try body of k statements (2 <= k <= 19); `pad` comment lines inside the try body."""
+    lines = ["def %s(source, path, log):" % name, "    handle = None", "    try:"]
+    lines += ["        # padding %d" % i for i in range(pad)]
+    lines += ["        " + s for s in TRY_STMTS[:k - 1]]
+    lines.append("        return fields, rows")
+    lines += ["    except FileNotFoundError as exc:", '        log.warning("missing file %s", path)', '        log.debug("details: %r", exc)',
+              '        notify("missing", path)', "        return None",
+              "    except PermissionError as exc:", '        log.error("denied %s", path)', '        log.debug("details: %r", exc)',
+              '        notify("denied", path)', "        raise",
+              "    finally:", "        if handle is not None:", "            handle.close()", '        log.info("done with %s", path)', "        release(path)"]
+    return lines
+
+
+# Sizes k+3: 5, 6, 8, 9, 10.  (2,5) -> 5/8 inside (1.5, 5/3); (2,6) -> 5/9 inside (5/3, 2); (3,7) -> 6/10 exactly 5/3 (the filter's edge,
+# accepted); (3,6) -> 6/9 exactly 1.5 and (2,7) -> 5/10 exactly 2 (the edges of a filter that would look at one fragment's size only).
+RATIO_KS = [2, 3, 5, 6, 7]
+
+
+def size_class(s1, s2):
+    """Where a pair of sizes lies relative to the size pre-filter (symmetric by definition)."""
+    lo, hi = min(s1, s2), max(s1, s2)
+    if lo <= 0:
+        return "degenerate"
+    if 4 * (hi - lo) == lo + hi:
+        return "edge-5/3"
+    if 2 * hi <= 3 * lo:
+        return "le-1.5"
+    if 4 * (hi - lo) < lo + hi:
+        return "in-(1.5,5/3)"
+    if hi < 2 * lo:
+        return "in-(5/3,2)"
+    if hi == 2 * lo:
+        return "edge-2"
+    return "gt-2"
+
+
+def line_class(l1, l2):
+    lo, hi = min(l1, l2), max(l1, l2)
+    if hi == 2 * lo:
+        return "edge-2"
+    if hi == 2 * lo + 1:
+        return "edge-2+1"
+    return "gt-2" if hi > 2 * lo else "lt-2"
+
+
+def straight_function(name, n, seed=0, pad=0):
+    """A straight-line function (exactly one fragment): n assignments, `pad` comment lines; n + 2 + pad lines."""
+    return (["def %s(alpha, beta):" % name] + ["    # padding %d" % i for i in range(pad)] +
+            ["    value%d = alpha * %d + beta" % (q, q + seed) for q in range(n)] + ["    return value0 - value%d" % (n - 1)])
+
+
+def gen_ratio_project(rng, pads=True, fillers=None, per_file=None):
+    """Files (in the order to be analysed) holding the size-ratio family so that each Size-ratio class inside (1.5, 2) occurs with the
+    smaller fragment first AND with the larger fragment first (the smallest member appears twice: at the front and at the end);
+    optionally a straight-line function with padded copies on both sides of the line-count filter (2x - 1, 2x, 2x + 1 lines), before
+    and after the plain one; `fillers` one-fragment functions in front shift the batch alignment of everything behind them."""
+    mid = list(RATIO_KS[1:])
+    rng.shuffle(mid)
+    k0 = RATIO_KS[0]
+    members = [("load%da" % k0, try_function("load%da" % k0, k0), dict(k=k0))]
+    members += [("load%d" % k, try_function("load%d" % k, k), dict(k=k)) for k in mid]
+    members += [("load%db" % k0, try_function("load%db" % k0, k0), dict(k=k0))]
+    if pads:
+        n = rng.choice([5, 6, 7])
+        base = n + 2
+        mk = lambda tag: [("pad%d%s" % (p, tag), straight_function("pad%d%s" % (p, tag), n, 3, p), dict(lines=base + p)) for p in (base - 1, base, base + 1)]
+        before, after = mk("a"), mk("b")
+        rng.shuffle(before)
+        rng.shuffle(after)
+        block = before + [("pad0", straight_function("pad0", n, 3, 0), dict(lines=base))] + after
+        at = rng.randint(0, len(members))
+        members = members[:at] + block + members[at:]
+    n_fill = rng.randint(0, 2) if fillers is None else fillers
+    members = [("fill%d" % i, straight_function("fill%d" % i, 6, 10 * (i + 1)), dict(filler=True)) for i in range(n_fill)] + members
+    per_file = per_file or rng.choice([1, 2, 3])
+    files, meta = [], []
+    for fi in range(0, len(members), per_file):
+        path = "r%02d.py" % (fi // per_file)
+        lines = ["import os", ""]
+        for name, src, m in members[fi:fi + per_file]:
+            meta.append(dict(m, name=name, path=path, start=len(lines) + 1))
+            lines += src + ["", ""]
+        files.append((path, "\n".join(lines) + "\n"))
+    return files, meta
 
 
 def gen_twins(rng, kinds, occ=None, n_fill=None):
